@@ -81,6 +81,8 @@ Ev == T.events[l]
 \* the stream object an event was recorded on (layer index, 1 = the stream that was opened)
 Obj(ev) == IF "obj" \in DOMAIN ev THEN ev.obj ELSE 1
 MaxObj == 8
+\* virtual size of the object (layers of a chain may differ in size: a backing file may be shorter or longer)
+SizeOf(ev) == IF "sizes" \in DOMAIN T THEN T.sizes[Obj(ev)] ELSE T.sizeB
 
 Src(q) == CASE T.fmt = "chain" -> ChainSrc(T.chain, Obj(Ev), q)
             [] T.fmt = "extents" -> ExtentSrc(q)
@@ -92,14 +94,14 @@ Src(q) == CASE T.fmt = "chain" -> ChainSrc(T.chain, Obj(Ev), q)
             [] T.fmt = "qcow2" -> Qcow2!CellSrc(QcowImg(T.img), q)
 
 ReadOK(ev, at) ==
-  /\ ev.len = ExpectLen(T.sizeB, at, ev.n)
+  /\ ev.len = ExpectLen(SizeOf(ev), at, ev.n)
   /\ TotalLen(ev.runs) = ev.len
   /\ RunsOK(Src, ev.runs, at, T.geo)
 
 EventOK(ev) ==
   LET p == pos[Obj(ev)] IN
-  CASE ev.e = "open"  -> ev.size = T.sizeB
-    [] ev.e = "seek"  -> ev.ret = SeekTo(T.sizeB, p, ev.whence, ev.arg)
+  CASE ev.e = "open"  -> ev.size = SizeOf(ev)
+    [] ev.e = "seek"  -> ev.ret = SeekTo(SizeOf(ev), p, ev.whence, ev.arg)
     [] ev.e = "tell"  -> ev.ret = p
     [] ev.e \in {"read", "readinto"} -> ev.pos0 = p /\ ReadOK(ev, p) /\ ev.tell = p + ev.len
     [] ev.e = "peek"  -> ev.pos0 = p /\ ReadOK(ev, p) /\ ev.tell = p
@@ -127,7 +129,7 @@ Clause(ev) ==
   IF ev.e \in {"read", "readinto", "peek", "readoffset"} THEN
     LET at == IF ev.e = "readoffset" THEN ev.o ELSE pos[Obj(ev)] IN
     IF ev.e # "readoffset" /\ ev.pos0 # pos[Obj(ev)] THEN "position-before"
-    ELSE IF ev.len # ExpectLen(T.sizeB, at, ev.n) THEN "length"
+    ELSE IF ev.len # ExpectLen(SizeOf(ev), at, ev.n) THEN "length"
     ELSE IF TotalLen(ev.runs) # ev.len THEN "runs-length"
     ELSE IF ~RunsOK(Src, ev.runs, at, T.geo) THEN "content"
     ELSE "position-after"
